@@ -38,6 +38,8 @@ Inductive snode :=
 | SOr (ex : bytes) (alts : list oralt) (nullable : bool)              (* a scalar example with an `or` rule *)
 | SArr (items : list snode) (mn mx : option Z) (nullable : bool)
 | SObj (members : list (bytes * (bool * snode))) (ap : apmode) (nullable : bool)      (* key, optional, value *)
+| SObjK (members : list (bytes * (bool * snode))) (shortcuts : list (bytes * (bool * snode))) (ap : apmode) (nullable : bool)
+      (* an object with key shortcuts `@name: value` next to its ordinary members: type name of the key, optional, value *)
 | SRef (name : bytes) (nullable : bool)                                (* the value is written as a type name: @name *)
 | SChoice (names : list bytes) (nullable : bool)                       (* a type choice: @a | @b *)
 | SRefLit (ex : bytes) (name : bytes) (nullable : bool).               (* a scalar example with the rule type: "@name" *)
@@ -47,6 +49,9 @@ Inductive otree :=
 | OAnyOf (alts : list otree) (nullable : bool)
 | OArr (items : list otree) (mn mx : option Z) (nullable : bool)      (* items: {} / the schema / anyOf of the schemas *)
 | OObj (props : list (bytes * otree)) (required : list bytes) (ap : apmode) (nullable : bool)
+| OObjK (props : list (bytes * otree)) (required : list bytes) (extra : list otree) (nullable : bool)
+      (* additionalProperties: {"anyOf": extra} - what the rule names (if anything) and the values of the key shortcuts *)
+| OAp (ap : apmode)                                      (* the schema additionalProperties carries for a type name, as an anyOf item *)
 | ORef (name : bytes) (nullable : bool)                  (* {"$ref": "#/components/schemas/name"}, in allOf when nullable *)
 | OChoice (names : list bytes) (nullable : bool).        (* {"anyOf": [{"$ref": ..}, ..]} of a type choice (no example) *)
 
@@ -69,6 +74,17 @@ Fixpoint to_otree (n : snode) : otree :=
   | SObj ms ap nu =>
     OObj (map (fun m => (fst m, to_otree (snd (snd m)))) ms)
          (map fst (filter (fun m => negb (fst (snd m))) ms)) ap nu
+  | SObjK ms ks ap nu =>
+    let props := map (fun m => (fst m, to_otree (snd (snd m)))) ms in
+    let req := map fst (filter (fun m => negb (fst (snd m))) ms) in
+    match ap with
+    | APAny => OObj props req APAny nu                    (* true / any / enum / mixed: nothing is said about the others *)
+    | _ => OObjK props req ((match ap with APFalse => [] | _ => [OAp ap] end) ++
+                            (* every child whose key text begins with @: the shortcuts, and ordinary members with such a quoted
+                               key as well (additional_properties.go anyOfJSON tests the first byte of the key) *)
+                            flat_map (fun m => match fst m with 64%N :: _ => [to_otree (snd (snd m))] | _ => [] end) ms ++
+                            map (fun k => to_otree (snd (snd k))) ks) nu
+    end
   | SRef name nu => ORef name nu
   | SChoice names nu => OChoice names nu
   | SRefLit _ name nu => ORef name nu          (* {"allOf": [{"$ref": ..}], "example": .., "nullable": ..} *)
@@ -83,6 +99,7 @@ Fixpoint example (n : snode) : jval :=
   | SOr ex _ _ => JLit ex
   | SArr items _ _ _ => JArr (map example items)
   | SObj ms _ _ => JObj (map (fun m => (fst m, example (snd (snd m)))) ms)
+  | SObjK ms _ _ _ => JObj (map (fun m => (fst m, example (snd (snd m)))) ms)      (* the keys of the shortcuts need the registered types *)
   | SRef _ _ | SChoice _ _ => JLit w_null_lit         (* without the registered types a reference has no example: Model/OasRef.v example_e *)
   | SRefLit ex _ _ => JLit ex
   end.
